@@ -210,8 +210,7 @@ Proof. split; [vm_compute; reflexivity | eapply C14_failed_gone_after_crash; vm_
    are the canonical encodings of the specification's rows, in order) either the database as it
    was or one of TableSpec.stmt_prefixes - rows 1..i of the INSERT applied, the first j matching
    rows of the UPDATE / DELETE rewritten / removed, the table registered with its first i
-   columns. Hypotheses (boolean, on the history and the statement): column names of CREATE TABLE
-   pairwise distinct, literals are Go values (ev_ok / stmt_ok), data file below 2^63 bytes.
+   columns. Hypotheses (boolean, on the history and the statement): literals are Go values (ev_ok / stmt_ok), data file below 2^63 bytes.
    Remark on the specification: stmt_prefixes d (SInsert n ..) is EMPTY when table n does not
    exist (it should contain d), hence the explicit `d' = d` alternative. *)
 From Coq Require Import Lia.
